@@ -17,7 +17,7 @@ pub static C05: Scenario = Scenario {
     rule: "misroute-footer: a token built with footer F in {none, explicit empty, UTF-8*} (any protocol, any issuing layer) is delivered to verifiers of all three layers that expect F' drawn from {F, none, \"\", every proper prefix of F (<= 64), F+x, case-flipped F, F with the last byte changed, F+NUL, unrelated text}; separately the footer segment is edited / dropped / added / bit-flipped in transit while the verifier expects F. Structural clause on every issued token: the 4th segment is exactly base64url_nopad(F) (absent without footer). none == \"\" is judged in the accept direction relative to an identical-form control verifier. Non-trivial = at least one mismatching expectation or footer fault; distinct = distinct abstract traces.",
     runs: |t| match t {
         Tier::Quick => 8_000,
-        Tier::Thorough => 80_000,
+        Tier::Thorough => 400_000,
     },
     gen: gen_c05,
     judge: |run, obs| oracle::judge("C05", run, obs),
@@ -31,7 +31,7 @@ pub static C06: Scenario = Scenario {
     rule: "misroute-assertion (v3/v4, local and public, all layers): a token built with implicit assertion A is delivered to verifiers expecting A' in {A, none, \"\", proper prefixes, extensions, case flips, unrelated}; (footer, assertion) pairs with the same concatenation but a different split are presented (PAE length prefixes); non-storage: the same core issue event (same key, nonce, message, footer) is replayed with assertions of length 0, 1, 16, 1000 and must give equal token lengths, and assertions of >= 24 random alphanumerics (and their base64) must not occur in the token or its decoded segments. Non-trivial = at least one mismatching assertion or a non-storage group; distinct = distinct abstract traces.",
     runs: |t| match t {
         Tier::Quick => 8_000,
-        Tier::Thorough => 80_000,
+        Tier::Thorough => 400_000,
     },
     gen: gen_c06,
     judge: |run, obs| oracle::judge("C06", run, obs),
